@@ -109,6 +109,8 @@ func newMux(dst string, option *ClientOption, init, dead wire, wireFn wireFn, wi
 
 	m.dpool = newPool(option.BlockingPoolSize, dead, option.BlockingPoolCleanup, option.BlockingPoolMinSize, wireFn)
 	m.spool = newPool(option.BlockingPoolSize, dead, option.BlockingPoolCleanup, option.BlockingPoolMinSize, wireNoBgFn)
+	verifPool(m.dpool)
+	verifPool(m.spool)
 	return m
 }
 
@@ -159,6 +161,7 @@ func (m *mux) _pipe(ctx context.Context, i uint16) (w wire, err error) {
 		return w, nil
 	}
 
+	verifYield(ctx, "mux.pipe", m, Completed{})
 	m.muxwires[i].mu.Lock()
 	sc := m.muxwires[i].sc
 	if m.muxwires[i].sc == nil {
